@@ -26,6 +26,12 @@ theorem pn53x_accept_sound (cmd : Nat) (f data : Bytes) (h : pnAccept cmd f = .o
     Spec.parse f = some (0xD5, cmd + 1, data) :=
   pn_accept_sound cmd f data h
 
+/-- Conversely every frame that is valid under the independent reading is accepted: the driver
+accepts a response **exactly when** it is a valid `D5, cmd+1` frame. -/
+theorem pn53x_accept_complete (cmd : Nat) (f data : Bytes) (h : Spec.parse f = some (0xD5, cmd + 1, data)) :
+    pnAccept cmd f = .ok data :=
+  pn_accept_complete cmd f data h
+
 /-- Every other response - any byte string at all - ends in `IOError(EIO)` or, for
 a well-formed error frame, in `Chipset.Error(0x7F)`; never in an internal exception. -/
 theorem pn53x_accept_documented (cmd : Nat) (f : Bytes) :
